@@ -324,6 +324,7 @@ def main():
     print(tally)
     # put back /repo's own generated model parts
     sh(f"/venv/bin/python {VERIF}/harness/translate/formulas.py /repo {VERIF}/lean/PyribsGen/Formulas.lean")
+    sh(f"/venv/bin/python {VERIF}/harness/translate/control.py /repo {VERIF}/lean/PyribsGen/Control.lean")
     sh(f"/venv/bin/python -c \"import sys; sys.path.insert(0, '{VERIF}/harness'); from translate import rng_sites; "
        f"rng_sites.translate('/repo', '{VERIF}/lean/PyribsGen/RngSites.lean')\"")
 
